@@ -632,3 +632,480 @@ def plan_c08(tier, seed):
 
 
 PLANS.update({"C08": plan_c08})
+
+
+# ------------------------------------------------------------------------------------------------
+# shared: symbolic operations on a layout
+from .engine import Harness
+
+
+def getters_agree_with(L, obj, rawexpr, tagmsg, b, sfx=""):
+    """append: every readable field of `obj` presents exactly the register bits of rawexpr (u128)"""
+    for f in L.fields:
+        if not f.readable:
+            continue
+        if f.array:
+            b.append(f"let j{sfx}_{f.name}: usize = vany(); vassume(j{sfx}_{f.name} < {f.K});")
+            i = f"j{sfx}_{f.name}"
+            sh = f"(({i} as u32) * {f.stride})"
+        else:
+            i, sh = "", "0u32"
+        b.append(f"let g{sfx}_{f.name}: {f.ty.getter_ty()} = {H.call_get(f, obj, i)};")
+        b.append(f"let w{sfx}_{f.name}: u128 = spec::get({rawexpr}, {H.rng(f.ranges)}, {sh});")
+        b += H.getter_check(f.ty, f"g{sfx}_{f.name}", f"w{sfx}_{f.name}", f"VERIF {tagmsg}: getter {f.name} != register bits")
+
+
+def op_arms(L, cur, model, step, forms=("with", "set")):
+    """match arms applying one symbolic write to `cur` (a `let mut` of type S) and to the u128 model"""
+    arms = []
+    n = 0
+    for f in L.fields:
+        if not f.writable:
+            continue
+        for form in forms:
+            lines = []
+            if f.array:
+                lines.append(f"let i: usize = vany(); vassume(i < {f.K});")
+                i, sh = "i", f"((i as u32) * {f.stride})"
+            else:
+                i, sh = "", "0u32"
+            lines += H.val_sym(f.ty, "v")
+            if form == "with":
+                lines.append(f"{cur} = {H.call_with(f, cur, i, 'v')};")
+            else:
+                lines.append(H.call_set(f, cur, i, "v"))
+            lines.append(f"{model} = spec::put({model}, {H.rng(f.ranges)}, {sh}, {H.val_bits(f.ty, 'v')});")
+            arms.append((n, " ".join(lines)))
+            n += 1
+    return arms
+
+
+def emit_op(b, L, cur, model, step):
+    arms = op_arms(L, cur, model, step)
+    n = len(arms)
+    b.append(f"let op{step}: u8 = vany(); vassume(op{step} < {n});")
+    b.append(f"match op{step} {{")
+    for (k, body) in arms[:-1]:
+        b.append(f"    {k} => {{ {body} }}")
+    b.append(f"    _ => {{ {arms[-1][1]} }}")
+    b.append("}")
+    return n
+
+
+# ------------------------------------------------------------------------------------------------
+# C12
+def h_history(L, k, name):
+    b = H.raw_sym(L)
+    b.append(f"let mut x = {L.name}::new_with_raw_value(r);")
+    b.append("let mut m: u128 = r128;")
+    for s in range(k):
+        emit_op(b, L, "x", "m", s)
+        if s < k - 1:
+            b.append(f'assert!({H.raw_of(L, "x")} == m, "VERIF history: state after step {s} != last-write-wins register");')
+    b.append(f'assert!({H.raw_of(L, "x")} == m, "VERIF history: final state != last-write-wins register");')
+    getters_agree_with(L, "x", "m", "history", b)
+    b.append("vend!();")
+    return Harness(name, "\n".join(b), "pass", f"history_k{k}", "C12", "", tuple(f"{L.name}::with_/set_{f.name}" for f in L.fields if f.writable))
+
+
+def disjoint(f, g):
+    return not (set(f.all_positions()) & set(g.all_positions()))
+
+
+def h_commute(L):
+    hs = []
+    ws = [f for f in L.fields if f.writable]
+    pairs = [(a, b) for i, a in enumerate(ws) for b in ws[i + 1:] if disjoint(a, b)]
+    for n, (f, g) in enumerate(pairs[:3]):
+        b = H.raw_sym(L)
+        b.append(f"let x = {L.name}::new_with_raw_value(r);")
+        for (fld, v, i) in ((f, "va", "ia"), (g, "vb", "ib")):
+            if fld.array:
+                b.append(f"let {i}: usize = vany(); vassume({i} < {fld.K});")
+            b += H.val_sym(fld.ty, v)
+        ia = "ia" if f.array else ""
+        ib = "ib" if g.array else ""
+        b.append(f"let p = {H.call_with(g, H.call_with(f, 'x', ia, 'va'), ib, 'vb')};")
+        b.append(f"let q = {H.call_with(f, H.call_with(g, 'x', ib, 'vb'), ia, 'va')};")
+        b.append(f'assert!({H.raw_of(L, "p")} == {H.raw_of(L, "q")}, "VERIF writes to disjoint fields {f.name}, {g.name} do not commute");')
+        b.append("vend!();")
+        hs.append(Harness(f"commute_{f.name}_{g.name}", "\n".join(b), "pass", "commute", "C12", f"{f.name},{g.name}", ()))
+    return hs
+
+
+def c12_layouts(tier, seed):
+    Ls = []
+    srnd = random.Random(1212)
+    rnd = random.Random(seed * 15485863 + 12)
+    n = 36 if tier == "quick" else 360
+    bases = [8, 16, 32, 64, 128, 24, 65, 100, 7, 33]
+    for k in range(n):
+        r = srnd if k < n * 3 // 4 else rnd
+        W = bases[k % len(bases)] if k < 3 * len(bases) else r.choice(NATIVE_BASES + ALL_ARB)
+        if W < 4:
+            W = 8
+        if k % 10 < 3:
+            Ls.append(overlapping_layout(r, W, r.randint(3, 6), tag=f"overlapping fields on u{W}"))
+        else:
+            L = tiled_layout(r, W, complete=(k % 2 == 0), max_fields=7, tag=f"register layout on u{W}")
+            for f in L.fields:
+                if f.access == "w" and r.random() < 0.5:
+                    f.access = "rw"
+            Ls.append(L)
+    return Ls
+
+
+def plan_c12(tier, seed):
+    Ls = [L for L in c12_layouts(tier, seed) if any(f.writable for f in L.fields)]
+    kdeep = 3 if tier == "quick" else 4
+
+    def hs(L):
+        out = [h_history(L, 1, "step"), h_history(L, kdeep, f"history{kdeep}")]
+        out += h_commute(L)
+        return out
+
+    us = units_from(Ls, hs)
+    for k in (0, len(us) // 2, len(us) - 1):
+        L = us[k].meta["layout"]
+        h = h_history(L, 2, "ctl_history")
+        # the model forgets the second write
+        idx = h.body.rfind("let op1:")
+        h.body = h.body.replace('"VERIF history: final state', '"VERIF history(control): final state')
+        h.body = h.body[:idx] + "let m_saved = m;\n" + h.body[idx:].replace('assert!(' + H.raw_of(L, "x") + ' == m, "VERIF history(control)', 'vassume(m != m_saved); let m = m_saved; assert!(' + H.raw_of(L, "x") + ' == m, "VERIF history(control)', 1)
+        h.expect, h.family = "control", "control"
+        us[k].harnesses.append(h)
+    return Plan(us, title="histories are last-write-wins", chunk=120 if tier == "quick" else 300, harness_timeout=600,
+                bounds={"histories": f"one step from an ARBITRARY state (closes all finite histories by induction on the single-word state, argument on paper) + direct symbolic histories of length {kdeep}", "ops": "every (field, index, value, with_|set_) chosen by a symbolic selector",
+                        "layouts": "%d seeded register layouts (tiled and overlapping fields, all field kinds) on native and arbitrary-int bases" % len(us)},
+                assumptions=COMMON_ASSUME + ["induction over history length is a paper argument: the state is exactly the raw word (C06/C11), so single-step agreement from every state implies agreement after any finite history"])
+
+
+# ------------------------------------------------------------------------------------------------
+# C13
+def builder_chain(L, b, argname="a"):
+    """emit symbolic arguments and return (chain expression, list of (field, [arg vars]))"""
+    chain = f"{L.name}::builder()"
+    args = []
+    for f in L.fields:
+        if not f.writable:
+            continue
+        if f.array:
+            vs = []
+            for j in range(f.K):
+                v = f"{argname}_{f.name}_{j}"
+                b += H.val_sym(f.ty, v)
+                vs.append(v)
+            chain += f".with_{f.name}([{', '.join(vs)}])"
+            args.append((f, vs))
+        else:
+            v = f"{argname}_{f.name}"
+            b += H.val_sym(f.ty, v)
+            chain += f".with_{f.name}({v})"
+            args.append((f, [v]))
+    chain += ".build()"
+    return chain, args
+
+
+def h_builder(L, name="builder"):
+    b = []
+    chain, args = builder_chain(L, b)
+    b.append(f"let built: {L.name} = {chain};")
+    b.append(f"let mut want: u128 = {L.default_value():#x}u128;")
+    for (f, vs) in args:
+        for j, v in enumerate(vs):
+            b.append(f"want = spec::put(want, {H.rng(f.ranges)}, {j * f.stride}u32, {H.val_bits(f.ty, v)});")
+    b.append(f'assert!({H.raw_of(L, "built")} == want, "VERIF builder()...build() != default with every field written");')
+    # the same through the with_ chain on DEFAULT / zero (property wording)
+    start = f"{L.name}::DEFAULT" if L.default else f"{L.name}::ZERO"
+    b.append(f"let mut viaw = {start};")
+    for (f, vs) in args:
+        for j, v in enumerate(vs):
+            b.append(f"viaw = {H.call_with(f, 'viaw', str(j) if f.array else '', v)};")
+    b.append(f'assert!({H.raw_of(L, "built")} == {H.raw_of(L, "viaw")}, "VERIF builder != chain of with_ from DEFAULT/zero");')
+    b.append("vend!();")
+    return Harness(name, "\n".join(b), "pass", "builder", "C13", "", (f"{L.name}::builder", f"Partial{L.name}::with_*", f"Partial{L.name}::build"))
+
+
+def c13_layouts(tier, seed):
+    Ls = []
+    srnd = random.Random(1313)
+    rnd = random.Random(seed * 32452843 + 13)
+    n = 60 if tier == "quick" else 600
+    bases = [8, 16, 32, 64, 128, 24, 65, 100, 7, 33, 12, 127]
+    for k in range(n):
+        r = srnd if k < n * 3 // 4 else rnd
+        W = bases[k % len(bases)] if k < 4 * len(bases) else r.choice(NATIVE_BASES + ALL_ARB)
+        if W < 3:
+            W = 8
+        complete = (k % 2 == 0)
+        if complete:
+            L = tiled_layout(r, W, complete=True, default=None if k % 4 == 0 else ("lit", r.getrandbits(W), "hex"), tag=f"complete cover on u{W}")
+            for f in L.fields:
+                f.access = r.choice(["rw", "w"]) if L.default is None else f.access
+        else:
+            d = r.getrandbits(W) | 1 | (1 << (W - 1))
+            L = tiled_layout(r, W, complete=False, default=("lit", d, "hex") if k % 3 else ("const", d), tag=f"partial cover with default on u{W}")
+        L.legacy = (k % 7 == 0)
+        if any(f.writable for f in L.fields):
+            Ls.append(L)
+    # directed: 16-element arrays, bool arrays, full-width single field, signed, 128-bit
+    Ls.append(Layout(64, [Field("a", T_uint(4), [(0, 4)], (16, 4, False), "rw")], tag="16 nibbles fill u64"))
+    Ls.append(Layout(16, [Field("a", T_bool(), [(0, 1)], (16, 1, False), "rw")], tag="16 bools fill u16"))
+    Ls.append(Layout(128, [Field("f", T_uint(128), [(0, 128)], None, "rw")], tag="single full-width u128 field"))
+    Ls.append(Layout(128, [Field("lo", T_int(64), [(0, 64)], None, "rw"), Field("hi", T_int(64), [(64, 64)], None, "rw")], tag="two i64 halves"))
+    Ls.append(Layout(32, [Field("s2", T_int(8), [(24, 8)], None, "rw"), Field("s1", T_int(8), [(16, 8)], None, "rw"), Field("s0", T_int(16), [(0, 16)], None, "rw")], tag="signed_masking8and16 shape"))
+    Ls.append(Layout(8, [Field("a", T_uint(4), [(0, 1), (2, 1), (4, 1), (6, 1)], (2, 1, True), "rw")], tag="interleaving even/odd array with builder (documented test)"))
+    Ls.append(Layout(24, [Field("a", T_uint(8), [(0, 8)], (3, 8, False), "w")], tag="u24 three bytes write-only complete"))
+    Ls.append(Layout(9, [Field("r0", T_uint(4), [(0, 4)], None, "r"), Field("w0", T_uint(5), [(4, 5)], None, "w")], default=("lit", 0x1ff, "hex"), tag="read-only gap keeps default bits"))
+    return Ls
+
+
+def plan_c13(tier, seed):
+    Ls = [L for L in c13_layouts(tier, seed) if L.builder_expected()]
+    us = units_from(Ls, lambda L: [h_builder(L)])
+    for k in (0, len(us) // 2, len(us) - 1):
+        L = us[k].meta["layout"]
+        h = h_builder(L, "ctl_builder")
+        h.body = h.body.replace(f"let mut want: u128 = {L.default_value():#x}u128;", f"let mut want: u128 = {(L.default_value() ^ (1 << (L.base - 1))):#x}u128;", 1)
+        # flip a bit no... the top bit may be covered by a field; use a wrong FIRST write instead
+        h.body = h.body.replace("want = spec::put(want,", "want = 1u128 ^ spec::put(want,", 1)
+        h.expect, h.family = "control", "control"
+        us[k].harnesses.append(h)
+    return Plan(us, title="builder == default with every field written", chunk=60 if tier == "quick" else 150, harness_timeout=600,
+                bounds={"inputs": "all argument tuples (arrays as K symbolic elements)", "layouts": "%d builder-eligible layouts: complete cover without default, partial cover with literal/constant default (bits outside every field set), arrays up to 16 elements, lists, signed, enum, custom, arbitrary-int bases, write-only and read-only fields" % len(us)},
+                assumptions=COMMON_ASSUME)
+
+
+PLANS.update({"C12": plan_c12, "C13": plan_c13})
+
+
+# ------------------------------------------------------------------------------------------------
+# C11
+C11_PRE = """#[inline(always)]
+pub fn vstorage(x: &S) -> Option<u128> {
+    // the single storage word, read directly (C06 pins the size); a representation change degrades
+    // the check to its observational form instead of breaking the build
+    if core::mem::size_of::<S>() == core::mem::size_of::<VStorage>() && core::mem::align_of::<S>() == core::mem::align_of::<VStorage>() {
+        Some(unsafe { core::ptr::read(x as *const S as *const VStorage) } as u128)
+    } else { None }
+}"""
+
+
+def c11_register_layouts(N, tier, rnd):
+    Ls = []
+    top = mask(N)
+    if N == 1:
+        Ls.append(Layout(1, [Field("b", T_bool(), [(0, 1)], None, "rw")], tag="u1 single bool"))
+        Ls.append(Layout(1, [Field("b", T_uint(1), [(0, 1)], None, "rw")], default=("lit", 1, "dec"), tag="u1 single u1 with default"))
+        return Ls
+    # A: bool at 0 + top field ending exactly at N-1 (complete: builder offered)
+    fs = [Field("b0", T_bool(), [(0, 1)], None, "rw"), Field("top", ty_for_width(N - 1, "u1"), [(1, N - 1)], None, "rw")]
+    Ls.append(Layout(N, fs, tag=f"u{N}: bool + top field ending at bit {N - 1} (complete)"))
+    # B: full-width field + top bit bool (overlapping), default all ones
+    fs = [Field("all", T_uint(N), [(0, N)], None, "rw"), Field("t", T_bool(), [(N - 1, 1)], None, "rw")]
+    Ls.append(Layout(N, fs, default=("lit", top, "hex"), tag=f"u{N}: full-width field and top-bit bool, default all ones"))
+    if N >= 4:
+        w = 2 if N >= 8 else 1
+        K = min(N // w, 8)
+        lo = N - K * w
+        fs = [Field("a", ty_for_width(w), [(lo, w)], (K, w, False), "rw"), Field("l", T_uint(2), [(N - 1, 1), (0, 1)], None, "rw")]
+        Ls.append(Layout(N, fs, tag=f"u{N}: array filling exactly to bit {N - 1} + list touching bit {N - 1}"))
+    for w in NATIVE:
+        if w < N:
+            fs = [Field("hi", T_uint(w), [(N - w, w)], None, "rw"), Field("s", T_int(w), [(N - w, w)], None, "rw"), Field("lo", ty_for_width(N - w), [(0, N - w)], None, "rw")]
+            Ls.append(Layout(N, fs, default=("lit", top ^ 1, "hex"), tag=f"u{N}: native u{w}/i{w} field at the top"))
+            if tier == "quick":
+                break
+    if N >= 6:
+        s = 3
+        K = (N - 2) // s + 1
+        lo = N - ((K - 1) * s + 2)
+        if K >= 2:
+            fs = [Field("g", T_uint(2), [(lo, 2)], (K, s, True), "rw")]
+            Ls.append(Layout(N, fs, default=("lit", top, "hex"), tag=f"u{N}: stride-3 array whose last element ends at bit {N - 1}"))
+    if N >= 3:
+        e = sparse_enum("E0", 2, [0, 3], None)
+        fs = [Field("e", FType("optenum", 2, e), [(N - 2, 2)], None, "rw"), Field("c", FType("custom", N - 2 if N - 2 >= 1 else 1, None, "Cust1"), [(0, N - 2)], None, "rw")]
+        Ls.append(Layout(N, fs, aux=[e, custom_decl("Cust1", N - 2)], tag=f"u{N}: Option<enum> at the top + custom-typed rest"))
+    return Ls
+
+
+def h_c11_base(L):
+    S = L.name
+    b = H.raw_sym(L)
+    b.append(f"let x = {S}::new_with_raw_value(r);")
+    b.append('if let Some(s) = vstorage(&x) { assert!(s == r128, "VERIF storage after new_with_raw_value != value"); }')
+    b.append(f'if let Some(s) = vstorage(&{S}::ZERO) {{ assert!(s == 0, "VERIF storage of ZERO"); }}')
+    if L.default:
+        b.append(f'if let Some(s) = vstorage(&{S}::DEFAULT) {{ assert!(s == {L.default_value():#x}u128, "VERIF storage of DEFAULT"); }}')
+    b.append(f'assert!({H.raw_of(L, "x")} == r128, "VERIF raw_value() != state");')
+    b.append('vcover!(vstorage(&x).is_some(), "VERIF-REACH-storage-readable");')
+    b.append("vend!();")
+    return Harness("base", "\n".join(b), "pass", "invariant_base", "C11", "", (f"{S}::new_with_raw_value", f"{S}::raw_value"))
+
+
+def h_c11_builder(L):
+    S = L.name
+    b = []
+    chain, args = builder_chain(L, b)
+    b.append(f"let y: {S} = {chain};")
+    b.append(f'if let Some(s) = vstorage(&y) {{ assert!(s <= {mask(L.base):#x}u128, "VERIF builder created state above bit N-1"); assert!({H.raw_of(L, "y")} == s, "VERIF raw_value() hides state"); }}')
+    b.append("vend!();")
+    return Harness("inv_builder", "\n".join(b), "pass", "invariant_builder", "C11", "", (f"{S}::builder",))
+
+
+def h_c11_step(L, f):
+    S = L.name
+    b = H.raw_sym(L)
+    b.append(f"let x = {S}::new_with_raw_value(r);")
+    il, i, sh = H.idx_lines(f)
+    b += il
+    b += H.val_sym(f.ty, "v")
+    b.append(f"let mut y = {H.call_with(f, 'x', i, 'v')};")
+    b.append("let via_set: bool = vany();")
+    b.append("if via_set { y = x; " + H.call_set(f, "y", i, "v") + " }")
+    b.append(f'if let Some(s) = vstorage(&y) {{ assert!(s <= {mask(L.base):#x}u128, "VERIF write created state above bit N-1"); }}')
+    b.append(f"let rv: u{L.base} = y.raw_value();")
+    b.append(f'if let Some(s) = vstorage(&y) {{ assert!({H.uint_u128(L.base, "rv")} == s, "VERIF raw_value() does not show the whole state"); }}')
+    b.append(f"let z = {S}::new_with_raw_value(rv);")
+    b.append('if let (Some(a), Some(c)) = (vstorage(&y), vstorage(&z)) { assert!(a == c, "VERIF re-wrapped value has different storage"); }')
+    # observational: every getter agrees on y and z; a further write agrees too
+    for g in L.fields:
+        if not g.readable:
+            continue
+        if g.array:
+            b.append(f"let j_{g.name}: usize = vany(); vassume(j_{g.name} < {g.K});")
+            j = f"j_{g.name}"
+        else:
+            j = ""
+        b.append(f'assert!({H.val_bits(g.ty, H.call_get(g, "y", j)) if g.ty.kind != "optenum" else "vres_bits(" + H.call_get(g, "y", j) + ")"} == {H.val_bits(g.ty, H.call_get(g, "z", j)) if g.ty.kind != "optenum" else "vres_bits(" + H.call_get(g, "z", j) + ")"}, "VERIF getter {g.name} distinguishes x from new_with_raw_value(x.raw_value())");')
+    b += H.val_sym(f.ty, "v2")
+    b.append(f'assert!({H.raw_of(L, H.call_with(f, "y", i, "v2"))} == {H.raw_of(L, H.call_with(f, "z", i, "v2"))}, "VERIF a second write distinguishes x from its re-wrapped raw value");')
+    b.append("vend!();")
+    return Harness(f"step_{f.name}", "\n".join(b), "pass", "invariant_step", "C11", f.name, (f"{S}::with_{f.name}", f"{S}::set_{f.name}", f"{S}::raw_value", f"{S}::new_with_raw_value"))
+
+
+VRES = """pub fn vres_bits<T: Copy, P: Copy + Into<u128>>(r: Result<T, P>) -> u128 where T: VEnumBits { match r { Ok(e) => e.vbits(), Err(p) => (1u128 << 100) | p.into() } }
+pub trait VEnumBits { fn vbits(self) -> u128; }"""
+
+
+def plan_c11(tier, seed):
+    rnd = random.Random(seed + 11)
+    bases = QUICK_ARB if tier == "quick" else ALL_ARB
+    us = []
+    n = 0
+    for N in bases:
+        for L in c11_register_layouts(N, tier, rnd):
+            hs = [h_c11_base(L)]
+            for f in L.fields:
+                if f.writable:
+                    hs.append(h_c11_step(L, f))
+            if L.builder_expected():
+                hs.append(h_c11_builder(L))
+            pre = f"pub type VStorage = u{L.storage};\n" + VRES
+            for a in L.aux:
+                if isinstance(a, EnumDef):
+                    pre += f"\nimpl VEnumBits for {a.name} {{ fn vbits(self) -> u128 {{ self as u128 }} }}"
+            u = Unit(f"l{n:05d}", L.decl() + "\n" + C11_PRE, hs, {"layout": L, "sig": L.sig(), "tag": L.tag, "valid": True}, pre)
+            us.append(u)
+            n += 1
+    for k in (0, len(us) // 2, len(us) - 1):
+        L = us[k].meta["layout"]
+        f = [f for f in L.fields if f.writable][0]
+        h = h_c11_step(L, f)
+        h.name, h.expect, h.family = "ctl_step", "control", "control"
+        h.body = h.body.replace(f"assert!(s <= {mask(L.base):#x}u128, \"VERIF write created", f"assert!(s < {mask(L.base):#x}u128, \"VERIF write created", 1)
+        us[k].harnesses.append(h)
+    return Plan(us, title="arbitrary-int bases are N-bit registers", chunk=200 if tier == "quick" else 500,
+                bounds={"induction": "base (new_with_raw_value / ZERO / DEFAULT / builder give storage < 2^N) and step (every with_/set_ of every field from every state < 2^N keeps storage < 2^N and raw_value() shows it all) are solver queries per layout; the induction itself is a paper argument",
+                        "bases": "%d arbitrary-int widths" % len(bases), "layouts": "register-like layouts whose top field / last array element / list item ends exactly at bit N-1, native-typed and signed fields at the top, Option<enum> and custom types"},
+                assumptions=COMMON_ASSUME + ["the storage word is read through a pointer cast guarded by a size/alignment test (harness-side unsafe only); if the representation changed the check degrades to its observational clauses"])
+
+
+# ------------------------------------------------------------------------------------------------
+# C16
+def c16_layouts(tier, seed):
+    Ls = []
+    bases = NATIVE_BASES + (QUICK_ARB if tier == "quick" else ALL_ARB)
+    for W in bases:
+        st = storage_bits(W)
+        fs = []
+        # full width and full-width-minus-one on every storage size, top-bit bools, native at top
+        cands = [(0, W), (0, W - 1), (1, W - 1), (W - 1, 1), (0, 1)]
+        for w in NATIVE:
+            if w <= W:
+                cands += [(W - w, w), (0, w)]
+        seen = []
+        for (lo, n) in cands:
+            if n >= 1 and (lo, n) not in seen:
+                seen.append((lo, n))
+        fields = []
+        for (lo, n) in seen:
+            for ty in (elem_type_variants(n) if n > 1 else [T_bool(), T_uint(1)]):
+                fields.append(Field("f", ty, [(lo, n)], None, "rw"))
+        Ls += pack(W, fields, per=5, tag=f"boundary fields on u{W}")
+        # arrays that end on the top bit
+        for x in fill_shapes(W)[: (6 if tier == "quick" else 40)]:
+            for ty in elem_type_variants(x[1])[:2]:
+                Ls.append(Layout(W, [array_field(*x, ty=ty)], tag=f"array ending at top of u{W}: {x}"))
+        # lists with a 64-bit member / touching the top
+        if W >= 66:
+            Ls.append(Layout(W, [Field("f", T_uint(65), [(W - 64, 64), (0, 1)], None, "rw")], tag=f"list with 64-bit member on u{W}"))
+            Ls.append(Layout(W, [Field("f", T_uint(64), [(W - 32, 32), (0, 32)], None, "rw"), Field("g", T_int(64), [(0, 32), (W - 32, 32)], None, "rw")], tag=f"64-bit lists on u{W}"))
+        if W >= 4:
+            Ls.append(Layout(W, [Field("f", T_uint(2), [(W - 1, 1), (0, 1)], None, "rw"), Field("a", T_uint(2), [(0, 1), (W // 2, 1)], (2, 1, True), "rw")], tag=f"list touching top + array of lists on u{W}"))
+        if W == 128:
+            Ls.append(Layout(W, [Field("f", T_uint(128), [(64, 64), (0, 64)], None, "rw")], tag="128-bit swapped halves"))
+            Ls.append(Layout(W, [Field("f", T_int(128), [(0, 128)], None, "rw")], tag="i128 full width"))
+    return Ls
+
+
+def h_total_builder(L):
+    b = []
+    chain, args = builder_chain(L, b)
+    b.append(f"let y: {L.name} = {chain};")
+    b.append("let _r = y.raw_value();")
+    b.append("vend!();")
+    return Harness("total_builder", "\n".join(b), "pass", "total_builder", "C16", "", (f"{L.name}::builder", "Partial*::with_*", "build"))
+
+
+def plan_c16(tier, seed):
+    Ls = c16_layouts(tier, seed)
+    # complete single-field / tiled layouts get their builder exercised too
+    srnd = random.Random(1616)
+    for W in NATIVE_BASES + [24, 65, 127]:
+        Ls.append(tiled_layout(srnd, W, complete=True, tag=f"tiled complete layout on u{W} (builder steps)"))
+        Ls.append(Layout(W, [Field("f", T_uint(W), [(0, W)], None, "rw")], tag=f"single full-width field on u{W} (builder)"))
+
+    def hs(L):
+        out = [H.h_total(L, f, "C16") for f in L.fields]
+        for f in L.fields:
+            if f.array:
+                out += [H.h_oob(L, f, "C16", op) for op in ((("get",) if f.readable else ()) + (("with", "set") if f.writable else ()))]
+        if L.builder_expected() and any(f.writable for f in L.fields):
+            out.append(h_total_builder(L))
+        return out
+
+    us = units_from(Ls, hs)
+    # controls: an out-of-range index admitted, and a deliberately overflowing harness expression
+    done = 0
+    for u in us:
+        L = u.meta["layout"]
+        for f in L.fields:
+            if f.array and f.readable and done < 2:
+                u.harnesses.append(H.ctl_oob(L, f, "C16", "get"))
+                done += 1
+                break
+    L0 = us[0].meta["layout"]
+    h = H.h_total(L0, L0.fields[0], "C16")
+    h.name, h.expect, h.family = "ctl_total", "control", "control"
+    h.body = h.body.replace("vend!();", 'let sh: u32 = vany(); vassume(sh <= 128); assert!(sh < 128, "VERIF control"); let _q = 1u128 << sh;\nvend!();')
+    us[0].harnesses.append(h)
+    return Plan(us, title="total and profile independent", chunk=230 if tier == "quick" else 600,
+                bounds={"inputs": "all raw values, field values and in-range indices; all out-of-range indices for the permitted panic", "checks": "every CBMC property of the reached functions: arithmetic overflow, shift overflow, assert!, unreachable!, UInt::new / extract_uN assertions, pointer checks",
+                        "layouts": "boundary corpus: full-width and full-width-minus-one fields on every storage size, top-bit bools, native and signed fields at the top, arrays ending on the top bit, lists with a 64-bit member, 128-bit fields, builder steps on complete layouts",
+                        "profiles": "Kani models the dev profile (overflow checks + debug assertions ON). That no overflow check can fire implies wrapping and checked arithmetic agree on every input, so results are profile independent (argument); every counterexample is replayed natively in dev AND release"},
+                assumptions=COMMON_ASSUME + ["profile independence is concluded from the absence of any reachable overflow/debug-assertion failure, not from a second solve (Kani always checks overflow)"])
+
+
+PLANS.update({"C11": plan_c11, "C16": plan_c16})
